@@ -18,10 +18,11 @@ TRUSTED_BASE = [
     "extraction (ExtrOcamlBasic only) and the OCaml integer driver",
 ]
 ASSUMPTIONS = ["member names are sequences of Unicode scalar values"]
-TECHNIQUE = "Coq proofs that the location of every selected node addresses its value and that the serializer prints the RFC normalized path; differential runs checking identity, path text and re-query on names over all code point classes"
+TECHNIQUE = "Coq proofs that the location of every selected node addresses its value, that the serializer prints the RFC normalized path, and - end to end through the lexer, parser and evaluator models - that the printed path compiles and selects exactly that node; differential runs checking identity, path text and re-query on names over all code point classes"
 LEVEL = "proof"
-LEVEL_TEXT = ("Theorems C08_location (every node of every result, filters included, lies at its location) and C08_path_canonical (node.path() is the RFC normalized path for every location) "
-              "- see Props/C08.v for what is proved and what is pending; the re-query half is decided against the real code on every generated node.")
+LEVEL_TEXT = ("Theorems C08_location (every node of every result, filters included, lies at its location), C08_path_canonical (node.path() is the RFC normalized path for every location) and "
+              "C08_requery (for every location of every value, names over all scalar values: compile(path()) succeeds and find returns exactly that node - proved through Model/Lex.v, Model/Parse.v, Model/Eval.v). "
+              "The models are tied to the code by differential testing on every generated node (identity, path text, re-query).")
 LEVEL_NOTE = "Trusted: Coq kernel; Spec/NormPath.v; json.dumps model; correspondence; extraction and driver."
 norm_reply = harness.norm_reply
 
